@@ -286,6 +286,14 @@ func (p *Progress) serve(s *pState, cw *cwriter.Writer) {
 				interceptIO = nil
 			}
 		case <-p.done:
+			if s.delayRC != nil {
+				// render delay may have ended at the same moment
+				select {
+				case <-s.delayRC:
+					w, cw = cw, nil
+				default:
+				}
+			}
 			if err != nil {
 				_, _ = fmt.Fprintln(s.debugOut, err.Error())
 			} else if s.autoRefresh {
